@@ -151,14 +151,14 @@ def splitter_candidates(case):
 @st.composite
 def cases(draw, tier, satisfied=False):
     p = EXPL.copy(max_depth=5) if tier == 'quick' else EXPL.copy(max_depth=6)
-    style = draw(st.sampled_from(['plain', 'simple-predicates', 'simple-predicates', 'two-branches', 'term-temporal']))
+    style = draw(st.sampled_from(['plain', 'simple-predicates', 'simple-predicates', 'two-branches', 'term-temporal', 'both-contexts']))
     if style != 'plain':
         # predicates "var cmp const": the depth budget goes into temporal / Boolean nesting
         p = p.copy(const_pred_only=True, bare_operand=False)
     elif draw(st.booleans()):
         # temporal operators below arithmetic and predicates (x * (always y) > 0): no polarity reaches them
         p = p.copy(temporal_in_arith=True)
-    nv = draw(st.sampled_from([1, 1, 2, 3]))
+    nv = draw(st.sampled_from([1, 1, 2, 3])) if style != 'both-contexts' else draw(st.sampled_from([2, 3, 3, 3]))
     start = draw(st.integers(0, len(F.VAR_POOL) - 1))
     vs = [F.VAR_POOL[(start + i) % len(F.VAR_POOL)] for i in range(nv)]
     f, _ = draw(F.formulas(p, variables=vs))
@@ -198,6 +198,21 @@ def cases(draw, tier, satisfied=False):
             g = ('bin', draw(st.sampled_from(['iff', 'xor'])), t, ('pred', '>=', v1, ('const', draw(st.sampled_from([0.0, 2.0])))))
         k = draw(st.integers(0, 3))
         f = [g, ('un', 'not', g), ('bin', draw(st.sampled_from(['and', 'or', 'implies'])), g, f), ('un', draw(st.sampled_from(['always', 'eventually'])), g)][k]
+    if style == 'both-contexts':
+        # the same temporal sub-formula once as a Boolean operand and once inside a term (a comparison, iff / xor, arithmetic):
+        # as a Boolean operand a witness explains it, as a number it depends on everything it is computed from
+        v1, v2, v3 = [('var', vs[i % len(vs)]) for i in range(3)]
+        cs = st.sampled_from([0.0, 1.0, -1.0, 2.0])
+        pa, pb = ('pred', '>=', v1, ('const', draw(cs))), ('pred', draw(st.sampled_from(['>=', '<'])), v2, ('const', draw(cs)))
+        inner = draw(st.sampled_from([('bin', 'and', pa, pb), ('bin', 'and', pa, pb), ('bin', 'or', pa, pb), ('bin', 'implies', pa, pb), pa]))
+        b = draw(st.integers(0, 3))
+        nn = ('tun', draw(st.sampled_from(['eventually', 'always', 'once', 'historically'])), 0, b, inner)
+        asnum = draw(st.sampled_from([('pred', draw(st.sampled_from(['<=', '>=', '<', '>'])), nn, v3), ('bin', draw(st.sampled_from(['iff', 'xor'])), nn, pb),
+                                      ('pred', '>=', ('bin', '-', nn, v3), ('const', 0.0)), ('pred', '<=', ('un', 'abs', nn), ('const', 1.0))]))
+        op = draw(st.sampled_from(['or', 'and', 'implies']))
+        f = ('bin', op, nn, asnum) if draw(st.booleans()) else ('bin', op, asnum, nn)
+        if draw(st.integers(0, 3)) == 0:
+            f = ('un', 'not', f)
     n = draw(F.trace_lengths(8))
     # values off the integer/half grid so that robustness 0 (no verdict) is rare
     vals = st.integers(-16, 15).map(lambda k: (k + 0.5) / 2.0)
